@@ -905,6 +905,31 @@ def gen_total(seed, tier):
             return {"k": "other", "which": rng.choice(["nan", "inf", "float32", "int42"])}
         return rnd_text_item(rng, sized=0.3)
     for i in range(n):
+        if i % 10 == 3:
+            # a row shared by several tables (joined in any order, some of them more than once: A, B, A), extended
+            # after it joined: every table that holds it must still render in every format -- a table whose column
+            # count was not brought up to the late cells is where a renderer indexes past its columns
+            b = GridBuilder(rng, ntables=rng.randint(2, 3))
+            for t in range(1, b.ntables + 1):
+                if rng.random() < 0.5:
+                    b.ops.append({"op": "headers", "t": t, "items": [item() for _ in range(rng.randint(0, 3))]})
+                if rng.random() < 0.5:
+                    nn = rng.randint(0, 3)
+                    b.ops.append({"op": "rowitems", "t": t, "items": [item() for _ in range(nn)]})
+                    b.rows.append({"sep": False, "n": nn, "tbl": t})
+            shared = len(b.rows) + 1
+            b.ops.append({"op": "newrow", "how": rng.choice(["sizedfor", "new", "cap"]), "t": 1, "cap": rng.randint(0, 3)})
+            b.rows.append({"sep": False, "n": 0, "tbl": 0})
+            for _ in range(rng.randint(0, 2)):
+                b.ops.append({"op": "rowadd", "r": shared, "item": item()})
+            for _ in range(rng.randint(2, 5)):
+                b.ops.append({"op": "addrow", "t": rng.randint(1, b.ntables), "r": shared})
+            for _ in range(rng.randint(1, 3)):
+                b.ops.append({"op": "rowadd", "r": shared, "item": item()})
+            for t in range(1, b.ntables + 1):
+                b.ops.append({"op": "renderall", "t": t})
+            out.append(b.ops)
+            continue
         b = GridBuilder(rng)
         for _ in range(rng.randint(0, 30)):
             b.step(maxcells=rng.choice([0, 1, 2, 4, 11]), items=item)
@@ -979,6 +1004,12 @@ def gen_paths(seed, tier):
                     b.ops.append({"op": "setprop", "owner": {"kind": "column", "t": 1, "n": c}, "k": "k_align", "v": rng.choice(["vL", "vR", "vC"])})
         # items changed after they were added (with Update): every path must show the new text
         b.ops += mutate_ops(rng, b.ops, TEXTS, p=0.3)
+        if i % 24 == 5:
+            # a last row with a number JSON cannot encode: every JSON path fails part-way through its output (the same
+            # way on every path, with no text), the other formats render
+            b.ops.append({"op": "rowitems", "t": 1, "items": [S("last"), {"k": "other", "which": rng.choice(["nan", "inf"])}]})
+            b.rows.append({"sep": False, "n": 2, "tbl": 1})
+        poison = i % 24 == 17
         if rng.random() < 0.25:
             # a user callback (sometimes failing) registered before any further wrapper exists: it must not
             # change what is rendered (the reference path has no such callback)
@@ -1001,6 +1032,28 @@ def gen_paths(seed, tier):
                     b.ops.append(rnd_decor_op(rng, nwr + 1))
             nwr += 1
         render_ops(rng, b, nwr, rng.randint(1, 4))
+        if poison:
+            # a JSON render of ANOTHER table that fails part-way (a number JSON cannot encode in its last row), then JSON
+            # renders of this table by every route: whatever the failed attempt leaves behind in state shared between
+            # calls (a pooled buffer, say) must not show in them, and Render must still equal what RenderTo writes
+            t2 = b.new_table("core")
+            b.ops.append({"op": "headers", "t": t2, "items": [S("h1"), S("h2")]})
+            b.ops.append({"op": "rowitems", "t": t2, "items": [S("first"), S("row")]})
+            b.rows.append({"sep": False, "n": 2, "tbl": t2})
+            b.ops.append({"op": "rowitems", "t": t2, "items": [S("last"), {"k": "other", "which": rng.choice(["nan", "inf"])}]})
+            b.rows.append({"sep": False, "n": 2, "tbl": t2})
+            # (a third table that JSON can certainly render: the random one may lack the header JSON needs)
+            t3 = b.new_table("core")
+            b.ops.append({"op": "headers", "t": t3, "items": [S("k"), S("v")]})
+            b.ops.append({"op": "rowitems", "t": t3, "items": [S("one"), rnd_text_item(rng, sized=0)]})
+            b.rows.append({"sep": False, "n": 2, "tbl": t3})
+            b.ops.append({"op": "render", "pkg": "json", "t": t2, "entry": "Render"})
+            for t in (t3, 1):
+                for e in ("Render", "RenderTo", "Render"):
+                    b.ops.append({"op": "render", "pkg": "json", "t": t, "entry": e})
+                b.ops.append({"op": "render", "auto": "json", "t": t, "entry": "Render"})
+            b.ops.append({"op": "render", "pkg": "json", "t": t2, "entry": "Render"})
+            render_ops(rng, b, nwr, rng.randint(1, 3))
         hops = [o for o in b.ops if o["op"] == "headers" and o["t"] == 1]
         if hops and rng.random() < 0.35:
             # the header is replaced (same number of cells) after wrappers have rendered: every path, old wrappers
